@@ -277,13 +277,108 @@ def dispatch(prog, eff):
         outs.append(o)
     by_byte = {b: [] for b in range(256)}
     pre = []
+    tabs = _const_tables(prog)
     for o in outs:
         if o["bytes"] is None:
             pre.append(o)
         else:
             for b in o["bytes"]:
-                by_byte[b].append(o)
+                ob = _specialise(prog, o, b, tabs)
+                if ob is not None:
+                    by_byte[b].append(ob)
     return by_byte, pre, outs
+
+
+def _const_tables(prog):
+    """constant integer arrays of the library (lookup tables): name -> list of ints"""
+    from ir import Agg, Const
+    out = {}
+    for name, g in prog.globals.items():
+        iv = g.get("init_val")
+        if g.get("constant") and isinstance(iv, Agg) and iv.elems and all(isinstance(e, Const) for e in iv.elems):
+            out[g["name"]] = [e.v for e in iv.elems]
+    return out
+
+
+def _specialise(prog, o, b, tabs):
+    """The outcome of one decoder path for ONE initial byte b of the set that takes it: every term that depends only on the
+    initial byte (the dispatch load, a 1-byte loader applied to source+0, a lookup in a constant table indexed by it) is
+    folded to its value, and the path is dropped for this byte if one of its conditions is false for b.  A decoder that
+    handles a range of heads in one arm (width from a table, value from `head - base`) thereby yields, per byte, the same
+    concrete claims, callback arguments and results as one written with an arm per head."""
+    import paths as P
+    import termeval
+    env = {}
+    for r in o["reads"]:
+        if r["off"] == 0 and r["width"] == 1:
+            ev = r["ev"]
+            if ev.kind == "load" or (ev.kind == "call" and r["width"] == 1):
+                env[ev.res] = ("c", b)
+    if not env:
+        return o
+    memo = {}
+
+    def subst(t):
+        if not isinstance(t, tuple):
+            return t
+        if t in env:
+            return env[t]
+        return tuple(subst(x) if isinstance(x, tuple) else x for x in t)
+
+    def simp(t):
+        """evaluate top-down: a node is folded as a whole while its operand types are still visible (a signed compare needs
+        the width its zero-extended operand has), its operands only if the whole cannot be evaluated"""
+        if not isinstance(t, tuple) or not t or t[0] == "c":
+            return t
+        if t in memo:
+            return memo[t]
+        r = t
+        if t[0] in ("op", "cast", "icmp", "sel", "ld", "not", "in", "notin"):
+            try:
+                r = ("c", int(termeval.evaluate(t, {}, tabs)))
+            except Exception:
+                r = tuple(simp(x) if isinstance(x, tuple) else x for x in t)
+        elif t[0] not in ("call",):
+            r = tuple(simp(x) if isinstance(x, tuple) else x for x in t)
+        else:
+            r = tuple(simp(x) if isinstance(x, tuple) else x for x in t)
+        memo[t] = r
+        return r
+
+    def fold(t):
+        return simp(subst(t))
+    changed = False
+    for t, truth, _ins in o["path"].facts:
+        ft = fold(t)
+        if P.is_const(ft):
+            if bool(ft[1]) != truth:
+                return None          # this byte never takes this path
+        elif isinstance(ft, tuple) and ft[0] in ("in", "notin"):
+            x = fold(ft[1])
+            if P.is_const(x):
+                if (x[1] in ft[2]) != (ft[0] == "in") or not truth and False:
+                    if truth:
+                        return None
+    ob = dict(o)
+    ob["claims"] = [dict(c, amount=fold(c["amount"]), amount_raw=c["amount"]) for c in o["claims"]]
+    ob["callbacks"] = [dict(cb, args=tuple(fold(a) for a in cb["args"]), desc=[describe_arg(fold(a)) for a in cb["args"][1:]]) for cb in o["callbacks"]]
+    for k in ("status", "read", "required"):
+        if isinstance(o.get(k), tuple):
+            ob[k] = fold(o[k])
+    def claimed_total(t):
+        """the running claim total: an int while every amount is a constant, ('sum', total, amount) otherwise"""
+        if isinstance(t, tuple) and t and t[0] == "sum":
+            a_, b_ = claimed_total(t[1]), fold(t[2])
+            if isinstance(a_, int) and P.is_const(b_):
+                return a_ + b_[1]
+            return ("sum", a_, b_)
+        return t
+    if isinstance(o.get("claimed"), tuple):
+        ob["claimed"] = claimed_total(o["claimed"])
+    ob["reads"] = [dict(r, claimed=claimed_total(r["claimed"])) for r in o["reads"]]
+    ob["claims"] = [dict(c, before=claimed_total(c["before"])) for c in ob["claims"]]
+    ob["byte"] = b
+    return ob
 
 
 def _is_first_byte(term, SRC):
@@ -403,7 +498,7 @@ def encoder_paths(prog, eff, fname):
     # everything the encoder delegates to inside the library is followed (whatever the helpers are called)
     inl = set(ENC_INLINE) | {c for c in eff.transitive_callees(fname)
                              if c in prog.funcs and not prog.funcs[c].is_extra and c not in eff.transitive_callees(c)}
-    X = P.Executor(prog, eff, inline=inl)
+    X = P.Executor(prog, eff, inline=inl, loop_bound=16)       # a fixed-count byte loop unrolls into one path
     out = []
     for pa in X.run(fname):
         st = pa.st
